@@ -136,8 +136,12 @@ func answerAsk(d *Driver, kind string, q M) any {
 		return M{"bytes": hx(v.Nonce)}
 	case "keyDescription":
 		return keyDescView(unhx(q["der"].(string)))
-	case "hardwareDetailsOK":
-		return M{"bool": hardwareDetailsOracle(unhx(q["der"].(string)))}
+	case "sanView":
+		c, err := x509.ParseCertificate(unhx(q["der"].(string)))
+		if err != nil {
+			return nil
+		}
+		return M{"sans": sanView(c)}
 	case "safetyNet":
 		return safetyNetView(unhx(q["raw"].(string)))
 	case "jwsHeaders":
